@@ -1031,6 +1031,11 @@ def fs_corpus3():
     steps.append({"ev": "reset", "mode": "hard", "arg": esc("HEAD@{1}")})   # and the other way round
     steps.append(w("notes.txt", ""))
     steps.append({"ev": "restore", "paths": ["notes.txt"]})
+    # a configuration file larger than one read buffer (4096 bytes): a later read of it can fail after an earlier one succeeded
+    for i in range(4):
+        steps.append({"ev": "config", "key": "notes.k%d" % i, "value": ("%d" % i) * 1500})
+    steps.append({"ev": "config", "key": "core.editor", "value": "vi"})
+    steps.append({"ev": "config", "global": True, "key": "core.pager", "value": "less"})
     save("fs_corpus3", ["C16"], steps)
 
 
